@@ -26,8 +26,8 @@ CLAIMED = {
             "Exploration: @each over lengths 0..4 x every control directive at every body position (bare and under @if/@elseif/nested @if/@else); every @for with bounds in -3..3; two- and three-level nests reading loop.* at each level; random nested programs. Expected output from reference loop semantics.",
             "Trusted: lib/refint loop semantics. loop.* inside a @for body, reads of names bound in an earlier pass and arrays with mixed element types are unspecified and not asserted.", "exploration"),
     "C04": ("4 C04", "bounded exhaustive enumeration of small programs over assign/read/nesting forms + property-based testing (rapid) against a reference scope chain",
-            "Exploration: every program of <= 3 (quick) / 4 (thorough) statements over assignments of three types to two names, reads, and five nesting forms, under three data maps; the reserved name loop in every position; random programs with shadowing loop variables and type collisions.",
-            "Trusted: lib/refint scope chain (one scope per @if construct and per loop execution). Reads/re-bindings across loop passes are unspecified.", "exploration"),
+            "Exploration: every program of <= 3 (quick) / 4 (thorough) statements over assignments of three types to two names, reads, and five nesting forms, under three data maps; the reserved name loop in every position; random programs with shadowing loop variables and type collisions; template directories in which component files and slot bodies are generated blocks and the page reads the names afterwards.",
+            "Trusted: lib/refint scope chain (one scope per @if construct and per loop execution). Reads/re-bindings across loop passes, and of names a slot body assigned at its top level, are unspecified.", "exploration"),
     "C09": ("4 C09", "bounded exhaustive tables (built-ins x receivers x argument tuples; operators x operand kinds; @for clause subsets) + property-based testing (rapid) with an untyped program generator; oracle: no panic, returns, error line in range",
             "Exploration: every built-in name on receivers of every type with all argument tuples of length 0/1 and pairs over 19 boundary values; every operator on every ordered pair of operand kinds; @for with every subset of clauses absent; random untyped programs over data of every kind (nil pointers, nested unsupported values, invalid UTF-8).",
             "Trusted: recover()-based panic detection and the watchdog. Counts between 10^6 and 2^62 are not generated (memory exhaustion is not a decidable panic); MinInt64/MaxInt64 are.", "exploration"),
